@@ -83,30 +83,225 @@ def F(model: Model):
                         f.pattern = mangle(t.attr, "Pregex")
         f.cache = cache_field(model)
         model.__dict__["_field_names"] = f
-    global CURRENT
+    global CURRENT, CURRENT_MODEL
     CURRENT = f
+    CURRENT_MODEL = model
     return f
 
 
 CURRENT = None
+CURRENT_MODEL = None
 
 
 def pattern_of(o):
     """Pattern text of an interpreted Pregex object (field located by role; see F)."""
     if not isinstance(o, Obj):
         return None
+    if CURRENT_MODEL is not None and CURRENT_MODEL.__dict__.get("_layout"):
+        return slot_of(CURRENT_MODEL, o, "pattern")
     if CURRENT is not None and CURRENT.pattern in o.fields:
-        return o.fields[CURRENT.pattern]
+        v = o.fields[CURRENT.pattern]
+        if isinstance(v, tuple) and CURRENT_MODEL is not None:
+            return slot_of(CURRENT_MODEL, o, "pattern")
+        return v
+    if CURRENT_MODEL is not None and "_Pregex__pattern" not in o.fields:
+        return slot_of(CURRENT_MODEL, o, "pattern")
     return o.fields.get("_Pregex__pattern")
+
+
+class _Slot:
+    def __init__(self, what):
+        self.what = what
+
+
+class _Layout:
+    """How Pregex.__init__ lays out an instance: a template of its fields with three kinds of slot (pattern text, type,
+    repeatable flag), discovered by PROBING - the constructor is interpreted on two marker texts with the classifier's
+    answer forced to two different (type, flag) pairs, and the two resulting objects are compared field by field
+    (recursing into tuples and records).  No private field name or classifier signature is assumed."""
+    template = None        # {field name: value | _Slot | (tuple type, [items...])}
+    rec_ci = None          # ClassInfo of the record the classifier returns (None: a bare pair)
+
+
+def _classifier_sample(model: Model):
+    """What the classifier really returns for the empty text (its SHAPE is what matters: pair or record)."""
+    infer = model.method("pregex.core.pre", "Pregex", "__infer_type")
+    box = {}
+
+    class Sample(Hooks):
+        inside = False
+
+        def intercept(self, interp, target, args, kwargs, node):
+            if target is infer and not self.inside and "r" not in box:
+                self.inside = True
+                try:
+                    box["r"] = interp._call_func(target, args, kwargs, node)
+                finally:
+                    self.inside = False
+                return box["r"]
+            return NotImplemented
+    it = Interp(model, Sample())
+    it.construct(model.pregex, ["", False])
+    return it, box.get("r")
+
+
+def layout(model: Model):
+    lay = model.__dict__.get("_layout", 0)
+    if CURRENT_MODEL is not model:
+        F(model)                 # pattern_of() reads through the field names / layout of the model in use
+    if lay != 0:
+        return lay
+    lay = None
+    try:
+        it0, sample = _classifier_sample(model)
+        L = _Layout()
+        if sample is not None and type(sample) in it0._nt_by_type:
+            L.rec_ci = it0._nt_by_type[type(sample)]
+        elif isinstance(sample, Obj):
+            raise Incomplete("the classifier returns an object")
+        model.__dict__["_layout"] = L          # PregexHooks._record consults rec_ci while probing
+        probes = []
+        for text, forced in (("\uE001A", ("Alternation", True)), ("\uE001B", ("Assertion", False))):
+            hooks = PregexHooks(model, oracle=lambda t, forced=forced: forced, fork_unknown=False)
+            o = Interp(model, hooks).construct(model.pregex, [text, False])
+            probes.append((text, forced, o))
+        (ta, fa, oa), (tb, fb, ob) = probes
+        found = set()
+
+        def merge(a, b):
+            if a == ta and b == tb:
+                found.add("pattern")
+                return _Slot("pattern")
+            if isinstance(a, EnumVal) and isinstance(b, EnumVal) and (a.name, b.name) == (fa[0], fb[0]):
+                found.add("type")
+                return _Slot("type")
+            if a is True and b is False:
+                found.add("rep")
+                return _Slot("rep")
+            if isinstance(a, tuple) and isinstance(b, tuple) and type(a) is type(b) and len(a) == len(b):
+                return (type(a), [merge(x, y) for x, y in zip(a, b)])
+            if isinstance(a, (Obj, Lazy)) or isinstance(b, (Obj, Lazy)):
+                raise Incomplete("an instance field holds an object")
+            return a
+        if set(oa.fields) != set(ob.fields):
+            raise Incomplete("the constructor sets different fields for different patterns")
+        L.template = {k: merge(oa.fields[k], ob.fields[k]) for k in oa.fields}
+        if found != {"pattern", "type", "rep"}:
+            raise Incomplete(f"slots found: {sorted(found)}")
+        lay = L
+    except (Incomplete, PyRaise, AnalysisError, RecursionError) as e:
+        lay = None
+        model.__dict__["_layout_error"] = f"{type(e).__name__}: {e}"
+    model.__dict__["_layout"] = lay
+    return lay
+
+
+def _fill(v, text, tv, rep):
+    if isinstance(v, _Slot):
+        return {"pattern": text, "type": tv, "rep": rep}[v.what]
+    if isinstance(v, tuple) and len(v) == 2 and isinstance(v[0], type) and isinstance(v[1], list):
+        items = [_fill(x, text, tv, rep) for x in v[1]]
+        return v[0](*items) if hasattr(v[0], "_fields") else v[0](items)
+    return v
+
+
+def _find(v, what, o_v):
+    """Value at the slot `what` of template v inside the concrete value o_v (None when absent)."""
+    if isinstance(v, _Slot):
+        return (o_v,) if v.what == what else None
+    if isinstance(v, tuple) and len(v) == 2 and isinstance(v[0], type) and isinstance(v[1], list) and isinstance(o_v, tuple) \
+            and len(o_v) == len(v[1]):
+        for x, y in zip(v[1], o_v):
+            r = _find(x, what, y)
+            if r is not None:
+                return r
+    return None
+
+
+def slot_of(model: Model, o, what):
+    """The pattern text / type / repeatable flag of an interpreted Pregex object, read through the probed layout."""
+    lay = layout(model)
+    if lay is not None and isinstance(o, Obj):
+        for k, v in lay.template.items():
+            if k in o.fields:
+                r = _find(v, what, o.fields[k])
+                if r is not None:
+                    return r[0]
+    fn = F(model)
+    return o.fields.get({"pattern": fn.pattern, "type": fn.type, "rep": fn.repeatable}[what]) if isinstance(o, Obj) else None
+
+
+def slot_field(model: Model, what):
+    """Mangled name of the instance field that holds the given slot (None without a probed layout)."""
+    lay = layout(model)
+    if lay is None:
+        return None
+
+    def has(v):
+        if isinstance(v, _Slot):
+            return v.what == what
+        return isinstance(v, tuple) and len(v) == 2 and isinstance(v[0], type) and isinstance(v[1], list) and any(has(x) for x in v[1])
+    for k, v in lay.template.items():
+        if has(v):
+            return k
+    return None
+
+
+def class_fields(model: Model):
+    """(polarity field, verbose-text field) of the character-class base class, located by PROBING: AnyDigit() and
+    AnyButDigit() are constructed by interpretation; the polarity field is the one holding False / True, the verbose
+    text the one holding '[...]' / '[^...]' (the emitted pattern is the shorthand there, so it cannot be confused)."""
+    r = model.__dict__.get("_class_fields")
+    if r is None:
+        r = ("_Class__is_negated", "_Class__verbose")
+        try:
+            CLS = "pregex.core.classes"
+            it = Interp(model, PregexHooks(model), fuel=400000)
+            a = it.construct(model.cls(CLS, "AnyDigit"), [])
+            b = it.construct(model.cls(CLS, "AnyButDigit"), [])
+            neg = [k for k in a.fields if a.fields[k] is False and b.fields.get(k) is True]
+            verb = [k for k in a.fields if isinstance(a.fields[k], str) and a.fields[k].startswith("[") and not a.fields[k].startswith("[^")
+                    and isinstance(b.fields.get(k), str) and b.fields[k].startswith("[^")]
+            if len(neg) == 1 and len(verb) == 1:
+                r = (neg[0], verb[0])
+        except (Incomplete, PyRaise, AnalysisError, RecursionError):
+            pass
+        model.__dict__["_class_fields"] = r
+    return r
+
+
+def flag_field(model: Model, cname: str, param: str):
+    """The instance field in which class `cname` keeps its boolean constructor parameter `param` (probed)."""
+    key = ("_flag_field", cname, param)
+    r = model.__dict__.get(key)
+    if r is None:
+        r = f"_{cname}__{param}"
+        try:
+            ci = model.cls("pregex.core.classes", cname)
+            a = Interp(model, PregexHooks(model), fuel=400000).construct(ci, [], {param: True})
+            b = Interp(model, PregexHooks(model), fuel=400000).construct(ci, [], {param: False})
+            c = [k for k in a.fields if a.fields[k] is True and b.fields.get(k) is False]
+            if len(c) == 1:
+                r = c[0]
+        except (Incomplete, PyRaise, AnalysisError, RecursionError):
+            pass
+        model.__dict__[key] = r
+    return r
 
 
 def make_operand(model: Model, text: str, tname: str, repeatable: bool = True, cls=None, tag=None) -> Obj:
     ci = cls or model.pregex
     o = Obj(ci)
-    fn = F(model)
-    o.fields[fn.pattern] = text
-    o.fields[fn.type] = tval(model, tname)
-    o.fields[fn.repeatable] = repeatable
+    lay = layout(model)
+    if lay is not None:
+        tv = tval(model, tname)
+        for k, v in lay.template.items():
+            o.fields[k] = _fill(v, text, tv, repeatable)
+    else:
+        fn = F(model)
+        o.fields[fn.pattern] = text
+        o.fields[fn.type] = tval(model, tname)
+        o.fields[fn.repeatable] = repeatable
     o.fields[cache_field(model)] = None
     o.tag = tag or f"{tname}:{text!r}"
     return o
@@ -148,7 +343,8 @@ class PregexHooks(Hooks):
 
     def intercept(self, interp, target, args, kwargs, node):
         if target is self.infer:
-            text = args[0] if args else kwargs.get("pattern")
+            strs = [a for a in list(args) + list(kwargs.values()) if isinstance(a, str)]
+            text = strs[0] if strs else (args[0] if args else kwargs.get("pattern"))
             self.infer_calls.append(text)
             if not isinstance(text, str):
                 raise Incomplete("__infer_type on non-string")
@@ -171,6 +367,12 @@ class PregexHooks(Hooks):
         """Field names of the record the classifier returns, when it returns a NamedTuple instead of a bare pair."""
         if not hasattr(self, "_rec"):
             self._rec = None
+            lay = self.model.__dict__.get("_layout", 0)
+            if lay == 0:
+                lay = layout(self.model)
+            if lay is not None and lay.rec_ci is not None:
+                self._rec = lay.rec_ci
+                return [x for x, _ in self._rec.fields]
             for n in ast.walk(self.infer.node):
                 if isinstance(n, ast.Return) and isinstance(n.value, ast.Call):
                     ci = self.model.resolve_class_expr(self.infer.module, n.value.func)
@@ -210,6 +412,8 @@ class _LazyPair:
 
 
 class _LinkedLazy(Lazy):
+    sticky = True        # the pair remembers its resolution: safe to resolve wherever the value is needed
+
     def __init__(self, pair: _LazyPair, idx: int):
         self.pair = pair
         self.idx = idx
@@ -233,7 +437,31 @@ class _JointOptions(list):
         return self.ll.pair.resolved[self.ll.idx]
 
 
+def classify_real(model: Model, text: str, fuel=400000):
+    """(type member name, repeatable flag) the library itself assigns to raw text: `Pregex(text, escape=False)` is
+    interpreted with nothing replaced and the two values are read through the probed layout - neither the classifier's
+    name, signature nor return shape is assumed.  Raises PyRaise / Incomplete like any interpretation."""
+    it = Interp(model, Hooks(), fuel=fuel)
+    o = it.construct(model.pregex, [text, False])
+    t, rep = slot_of(model, o, "type"), slot_of(model, o, "rep")
+    return t, rep
+
+
 def infer_empty_rule(model: Model):
+    if layout(model) is not None:
+        try:
+            t, rep = classify_real(model, "")
+        except PyRaise as e:
+            return False, f"Pregex('') raises {e.name}"
+        except Incomplete as e:
+            return False, f"Pregex('') cannot be interpreted: {e}"
+        if isinstance(t, EnumVal) and t.name == "Empty" and rep is True:
+            return True, "ok"
+        return False, f"Pregex('') is classified ({t!r}, {rep!r}) instead of (_Type.Empty, True)"
+    return _infer_empty_rule_direct(model)
+
+
+def _infer_empty_rule_direct(model: Model):
     """Justification of the oracle "'' -> (Empty, True)": `__infer_type('')` is interpreted (it is the
     classifier applied to one constant, the empty text) and must return (_Type.Empty, True)."""
     f = model.method("pregex.core.pre", "Pregex", "__infer_type")
